@@ -7,8 +7,23 @@ own = json.load(open(os.path.join(ROOT, "selftest", "own_results.json")))
 notkept = json.load(open(os.path.join(ROOT, "selftest", "not_kept.json"))) if os.path.exists(os.path.join(ROOT, "selftest", "not_kept.json")) else []
 out = []
 out.append("## 11. Which checks catch which changes (catch matrix)\n")
-out.append("Every row below was produced by `selftest/mutate.py` (through `selftest/final_matrix.sh` / `selftest/run_agents.py`): each change\napplied to a scratch copy of `/repo`'s root package, the pinned suite confirmed green, the demonstration confirmed to\nfail with the change and to pass without it, then the quick checks run against the copy (`VERIF_SEED=1`): **all 20\nchecks** for the own mutants and for sub-agent rounds 9 and 10, the checks of the target property's family (flow C01–C05,\nC10, C18, C19 / batch and pool C06–C09, C11, C12, C17, C20 / store C13–C16) for the other rounds — a full matrix of\nroughly 540 changes x 20 checks does not fit the time budget; rounds 1 and 2 were run against all 20 checks at an\nearlier state of the harness (`selftest/res_r1.json`, `res_r2.json`). Rounds 1–10 were run on the state of the checks\nafter round 10; rounds 11 and later were produced and closed while that run was under way and were run on the state\nof the checks at the end of their own round (nothing was removed from a check afterwards; the regressions on the real\ntree after each round are the evidence that nothing fires there). "
-           "\"target\" is the property the change was written against; a check other than the target that fires is a sibling detection\n(the attribution rule of §10 makes checks report only findings that contradict their own statement, so siblings fire\nonly when the change really breaks their property too). Full per-change records: `seeded/<id>/meta.json` (`detected_by`,\n`first_finding`, `needs_to_manifest`, `checks_run`).\n")
+nall = sum(1 for m in metas if "--all" in m["checks_run"])
+out.append(f"""Every row below was produced by `selftest/mutate.py` (through `selftest/final_matrix.sh` / `selftest/run_agents.py`): each change
+applied to a scratch copy of `/repo`'s root package, the pinned suite confirmed green, the demonstration confirmed to
+fail with the change and to pass without it, then the quick checks run against the copy (`VERIF_SEED=1`). A full matrix
+of {len(metas)} kept changes x 20 checks does not fit the time budget, so: **all 20 checks** for the own mutants and for sub-agent
+rounds 9 and 10; the checks of the target property's family (flow C01–C05, C10, C18, C19 / batch and pool C06–C09, C11,
+C12, C17, C20 / store C13–C16) for the other rounds; and every change that no check of its family caught in that run
+(or whose run was disturbed by a rebuild of the harness) run again on its own against all 20 checks on the final
+state of the harness ({nall} changes have an all-20 record in total). Rounds 1–10 were run on the state of the checks
+after round 10 (`selftest/results/`); rounds 11–15 were produced and closed while or after that run was under way and
+were run on the state of the checks at the end of their own round. Nothing was removed from a check afterwards; the
+quick regressions on the real tree after every round (seeds 1–3, seeds 1–5 at the end) and the thorough runs of §12
+are the evidence that nothing fires there. "target" is the property the change was written against; a check other
+than the target that fires is a sibling detection (the attribution rule of §10 makes checks report only findings that
+contradict their own statement, so siblings fire only when the change really breaks their property too). Full
+per-change records: `seeded/<id>/meta.json` (`detected_by`, `first_finding`, `needs_to_manifest`, `checks_run`).
+""")
 rounds = collections.OrderedDict()
 for m in metas:
     rnd = m["id"].split("-")[0]
@@ -57,7 +72,7 @@ out.append("| id | target | fired | note |\n|---|---|---|---|")
 for r in own:
     mark = ", ".join(r["fired"]) if r["fired"] else "**none**"
     out.append(f"| {r['id']} | {r['prop']} | {mark} | {r.get('note','')[:110]} |")
-out.append("\nMutants with `fired = none` are the deliberate equivalents / controls described in §9 (they do not change observable behaviour).\n")
+out.append("\nMutants with `fired = none` are the four controls described in §9 (`m02d`, `m05a`, `m11a`, `m13d`): they do not change observable behaviour and must stay silent.\n")
 text = "\n".join(out)
 p = os.path.join(ROOT, "DESIGN.md")
 s = open(p).read()
